@@ -2,13 +2,15 @@
 
 theorems   Cppcheck.Determinism.sort_perm_invariant, lister_perm_invariant_files, lister_perm_invariant, runFiles_perm_invariant
            (the file list of a run is the same for every directory enumeration order; command-line order is kept:
-           runFiles_argument_order_matters), dump_alpha (the canonical form used to compare dumps forgets injective id
-           renamings), dump_alpha_counterexample_not_injective, canon_lits
+           runFiles_argument_order_matters; runFiles_eq: runFiles = markupLast . dedupPaths . sorted selections), dump_alpha +
+           canon_complete = canon_eq_iff (two dumps have the same canonical form IFF they differ by an injective renaming of
+           the ids: the comparison is neither too coarse nor too fine), canon_eq_rename, canon_lits
 T          enumeration of containers in lib/ whose iteration order depends on addresses or hashing (ordered containers
            keyed by pointers, unordered containers) - listed in the evidence, NOT proved harmless
-C          (1) the python canonicaliser of the check = the Lean `canon` on the id occurrences of real dumps;
-           (2) file order: the order of the `Checking ...` lines of the real binary on directories created in shuffled
-           orders and given as several arguments = `runFiles` of the driver
+C          (1) the indices the python canonicaliser really substitutes into a <dump> element = the Lean `canon` on the id
+           occurrences of that element; (2) file order: the order of the `Checking ...` lines of the real binary on directory
+           trees (sources, headers, other files, .qml markup with --library=qt) created in two different orders on tmpfs and
+           given as several arguments = `Determinism.runFiles` itself, evaluated by the driver on the trees as enumerated
 P_impl     the same command run under different address-space layouts (ASLR on/off, MALLOC_PERTURB_, tcache off, mmap
            threshold, arena count, environment size, working-directory depth) and with shuffled directory creation order
            gives byte-identical text / xml output and identical dumps after canonicalisation
@@ -31,7 +33,9 @@ EXPLANATION = ("Proved: the file list of a run does not depend on the directory 
 THEOREMS = ["Cppcheck.Determinism.sort_perm_invariant", "Cppcheck.Determinism.lister_perm_invariant_files",
             "Cppcheck.Determinism.lister_perm_invariant", "Cppcheck.Determinism.runFiles_perm_invariant",
             "Cppcheck.Determinism.runFiles_argument_order_matters", "Cppcheck.Determinism.dump_alpha",
-            "Cppcheck.Determinism.dump_alpha_counterexample_not_injective", "Cppcheck.Determinism.canon_lits"]
+            "Cppcheck.Determinism.dump_alpha_counterexample_not_injective", "Cppcheck.Determinism.canon_lits",
+            "Cppcheck.Determinism.canon_eq_rename", "Cppcheck.Determinism.canon_complete", "Cppcheck.Determinism.canon_eq_iff",
+            "Cppcheck.Determinism.runFiles_eq"]
 MODULES = ["Cppcheck.Props.C29"]
 
 # attributes of the dump that hold addresses
@@ -65,14 +69,22 @@ def canon_section(text):
 
 def canon_dump(text):
     """replace every address by the index of its first occurrence within its <dump> element; returns (canonical text, id
-    occurrences of the largest element in order)"""
-    out, best = [], []
+    occurrences of the largest element in order, canonical text of that element)"""
+    out, best, best_c = [], [], ""
     for sec in sections(text):
         c, occ = canon_section(sec)
         out.append(c)
         if len(occ) > len(best):
-            best = occ
-    return "".join(out), best
+            best, best_c = occ, c
+    return "".join(out), best, best_c
+
+
+CANON_ATTR_RE = re.compile(r'([\w-]+)="#(\d+)"')
+
+
+def substituted_indices(canon_text):
+    """the indices canon_section actually wrote into the text, in order"""
+    return [m.group(2) for m in CANON_ATTR_RE.finditer(canon_text) if m.group(1) in IDATTRS]
 
 
 VARBLOCK_RE = re.compile(r"(  <variables>\n)(.*?)(  </variables>\n)", re.S)
@@ -260,25 +272,15 @@ def one_input(ctx, res, drv, inp, k, no_aslr_ok, stats):
                 if cname == "text":
                     # file order of the real run against the model
                     real = checking_order(so)
-                    listed = []
-                    for a in inp["args"]:
-                        if os.path.isdir(os.path.join(d, a)):
-                            fl = []
-                            for dd, _, fs in os.walk(os.path.join(d, a)):
-                                for f in fs:
-                                    if f.endswith((".c", ".cpp")):
-                                        fl.append(os.path.relpath(os.path.join(dd, f), d))
-                            listed.append(fl)
-                        else:
-                            listed.append([a])
-                    op = "files - " + " ".join(",".join(core.hx(p) for p in l) for l in listed if l)
-                    rcm, mo, _ = core.run_lines(drv, [], [op])
-                    want = [core.unhx(h).decode() for h in mo[0].split(" ")] if mo and mo[0] not in ("bad-op", "") else []
+                    op = trees_op(d, inp["args"])
+                    want = model_files(drv, op) if "." not in inp["args"] else None
                     seen, real_u = set(), []
                     for r in real:
                         if r not in seen:
                             seen.add(r)
                             real_u.append(r)
+                    if want is None:
+                        continue
                     okf = real_u == want
                     res.case("fileorder|" + op, len(want) >= 3, None)
                     if okf:
@@ -298,8 +300,8 @@ def one_input(ctx, res, drv, inp, k, no_aslr_ok, stats):
                 for name, text in got["dumps"].items():
                     if name not in ref["dumps"]:
                         continue
-                    c1, occ1 = canon_dump(ref["dumps"][name])
-                    c2, occ2 = canon_dump(text)
+                    c1, occ1, _ = canon_dump(ref["dumps"][name])
+                    c2, occ2, sec2 = canon_dump(text)
                     if c1 != c2:
                         fd = first_diff(c1, c2)
                         unlisted = re.search(r'([\w-]+)="[0-9a-f]{9,16}"', fd["a"]) and re.search(r'([\w-]+)="[0-9a-f]{9,16}"', fd["b"])
@@ -311,19 +313,18 @@ def one_input(ctx, res, drv, inp, k, no_aslr_ok, stats):
                                               files=inp["files"] if len(json.dumps(inp["files"])) < 20000 else None, args=inp["args"], options=inp["options"])))
                     # the canonicaliser of the check = the Lean canon
                     if j == 1 and occ2:
-                        op = "canon " + " ".join("R" + i for i in occ2[:4000])
+                        # the indices that canon_section really substituted into the text of this <dump> element (the Lean model
+                        # is one element; the restart of the numbering per element is python only) against Lean canon
+                        op = "canon " + " ".join("R" + i for i in occ2)
                         rcm, mo, _ = core.run_lines(drv, [], [op])
-                        idx, want = {}, []
-                        for i in occ2[:4000]:
-                            if i not in idx:
-                                idx[i] = len(idx)
-                            want.append(str(idx[i]))
-                        okc = bool(mo) and mo[0] == ",".join(want)
-                        res.case("canon|" + inp["name"] + "|" + name, len(idx) >= 10, None)
+                        want = substituted_indices(sec2)
+                        okc = bool(mo) and len(want) == len(occ2) and mo[0] == ",".join(want)
+                        res.case("canon|" + inp["name"] + "|" + name, len(set(occ2)) >= 10, None)
                         if okc:
                             res.traces_validated += 1
                         else:
-                            problems.append(("canon", dict(input=inp["name"], dump=name, model=(mo[0][:200] if mo else None), python=",".join(want)[:200])))
+                            problems.append(("canon", dict(input=inp["name"], dump=name, model=(mo[0][:200] if mo else None), python=",".join(want)[:200],
+                                                           n_model=len(mo[0].split(",")) if mo else 0, n_python=len(want))))
     shutil.rmtree(root, ignore_errors=True)
     return problems
 
@@ -347,18 +348,29 @@ def enum_root(ctx, res):
     return os.path.join(ctx.tmp, "ao"), False
 
 
-def listed_files(d, args):
-    listed = []
+def trees_op(d, args, extra=(), late=()):
+    """the `trees` op of the driver: every argument as the directory tree the file system shows (all files, enumeration order)"""
+    enc = []
     for a in args:
-        if os.path.isdir(os.path.join(d, a)):
-            fl = []
-            for dd, _, fs in os.walk(os.path.join(d, a)):
+        p = os.path.join(d, a)
+        if os.path.isdir(p):
+            rels = []
+            for dd, _, fs in os.walk(p):
                 for f in fs:
-                    fl.append(os.path.relpath(os.path.join(dd, f), d))
-            listed.append(fl)
+                    rels.append(os.path.relpath(os.path.join(dd, f), p))
+            enc.append("D%s:%s" % (core.hx(a), ",".join(core.hx(r) for r in rels)))
+        elif os.path.exists(p):
+            enc.append("F" + core.hx(a))
         else:
-            listed.append([a])
-    return listed
+            enc.append("N" + core.hx(a))
+    return "trees %s %s %s" % (",".join(core.hx(e) for e in extra) or "-", ",".join(core.hx(e) for e in late) or "-", " ".join(enc))
+
+
+def model_files(drv, op):
+    rcm, mo, _ = core.run_lines(drv, [], [op])
+    if not mo or mo[0] == "bad-op":
+        raise core.CheckBroken("C29 driver rejected: " + op[:300])
+    return [core.unhx(h).decode() for h in mo[0].split(" ") if h]
 
 
 def argument_order_cases(ctx, res, drv):
@@ -372,6 +384,17 @@ def argument_order_cases(ctx, res, drv):
             names = rng.sample(["a.c", "b.c", "z.c", "m.cpp", "d1/a.c", "d1/c.c", "d1/s/x.c", "d2/b.c", "d2/B.c", "d2/a.cpp", "d1/s/t/u.c", "d2/k.c", "d1/e.cpp"],
                                rng.choice([4, 6, 8, 10]))
             files = {n: "int f_%d(void) { return %d/0; }\n" % (i, i) for i, n in enumerate(names)}
+            # files the lister must not select (headers, other extensions) and, in a third of the cases, markup files that are
+            # processed after the code (.qml with --library=qt)
+            for n in rng.sample(["h.h", "d1/g.hpp", "notes.txt", "d2/README", "d1/s/data.json"], rng.choice([0, 1, 2])):
+                files[n] = "int not_a_source;\n"
+            markup = k % 3 == 2
+            lib_opts, extra = [], []
+            if markup:
+                for n in rng.sample(["ui.qml", "d1/a.qml", "d2/zz.qml", "d1/s/m.qml"], rng.choice([1, 2, 3])):
+                    files[n] = "import QtQuick 2.0\nItem { }\n"
+                lib_opts, extra = ["--library=qt"], [".qml"]
+            names = sorted(files)
             cands = sorted(set(n.split("/")[0] for n in names)) + [n for n in names if "/" in n][:2] + ["d1/s"] * (any(n.startswith("d1/s/") for n in names))
             args = [rng.choice(cands) for _ in range(rng.choice([1, 2, 3, 4]))]
             outs = []
@@ -383,17 +406,19 @@ def argument_order_cases(ctx, res, drv):
                 a2 = [a for a in args if os.path.exists(os.path.join(d, a))]
                 if not a2:
                     break
-                rc, so, se = core.sh([ctx.cppcheck, "--template={file}:{line}:{id}"] + a2, cwd=d, timeout=120)
+                rc, so, se = core.sh([ctx.cppcheck, "--template={file}:{line}:{id}"] + lib_opts + a2, cwd=d, timeout=120)
                 real = []
                 for r in checking_order(so):
                     if r not in real:
                         real.append(r)
                 enum = [os.listdir(os.path.join(d, x)) for x in sorted(set(os.path.dirname(n) for n in names)) if True]
                 outs.append((so, se, enum))
-                if rep == 0:
-                    op = "files - " + " ".join(",".join(core.hx(p) for p in l) for l in listed_files(d, a2) if l)
-                    rcm, mo, _ = core.run_lines(drv, [], [op])
-                    want = [core.unhx(h).decode() for h in mo[0].split(" ")] if mo and mo[0] not in ("bad-op", "") else []
+                if True:
+                    # the model runs `runFiles` on the tree as THIS copy of the file system enumerates it
+                    op = trees_op(d, a2, extra, extra)
+                    want = model_files(drv, op)
+                    if markup:
+                        res.count("argorder:markup-last")
                     res.case("fileorder|" + op, len(want) >= 3 and len(a2) >= 2, dict(args=a2, real=real[:6], model=want[:6]) if k % 3 == 0 else None)
                     res.count("argorder:%d-args" % len(a2))
                     if real == want:
@@ -424,6 +449,14 @@ def run(ctx, res):
                                     "addresses / hashing; none of them is proved harmless, the repeated-run comparison samples them" % (len(ptr), len(unord)))
     res.oblig("translation:container-enumeration", len(ptr) + len(unord) > 0, "translation",
               "" if ptr or unord else "the scanner finds no container declaration in lib/ (pattern no longer matches the code?)")
+    res.assumptions += [
+        "iteration over containers keyed by pointer values or hashed (evidence: pointer_keyed_containers, unordered_containers) never "
+        "reaches the output order: NOT proved for any of them, sampled by runs in differently laid-out processes",
+        "the per-file analysis and the printing of findings are functions of the inputs and options (no clock, pid or environment "
+        "reaches the output apart from --showtime / progress / plist file names, which are outside)",
+        "abspath() of a listed file is modelled by its path string: aliases of one file (./d/a.c, d//a.c, symlinks) are not generated",
+        "an address identifies one object within one <dump cfg> element (the canonicaliser restarts per element; python only)",
+    ]
     no_aslr_ok = have_setarch()
     res.count("setarch:" + ("available" if no_aslr_ok else "missing"))
     inputs = gather_inputs(ctx, ctx.rng, res)
